@@ -900,7 +900,12 @@ def run(ctx):
             ctx.sample({"program": e["text"], "synthesized": pd["text"], "Q": pin.get("Q_text") if pin else None,
                         "validator": "accepted (E_S[s]_n = E_O[Q]_n and equal first moments of retained variables for all n)"}, limit=10)
         elif mm1 is not None:
-            sig = KNOWN_DERAND if random_eff else f"synth-loop-mismatch:{e['text']}:{pin.get('Q_text') if pin else ''}:{json.dumps(sin['point'], sort_keys=True)}"
+            # the known defect (effective variables replaced by their mean recurrences) can change a FIRST moment only
+            # if some effective variable is random and the joint system (effective part, retained variables and what
+            # they depend on) contains a non-linear monomial
+            nonlinear = any(sum(k_ for _, k_ in d[0][1]) >= 2 for d in (sin.get("system") or {}).get("monomial_dumps", []))
+            sig = KNOWN_DERAND if random_eff and nonlinear else \
+                f"synth-loop-mismatch:{e['text']}:{pin.get('Q_text') if pin else ''}:{json.dumps(sin['point'], sort_keys=True)}"
             new = ctx.violation(sig, dict(label, n=mm1[0], moment=mm1[1], synthesized_value=str(mm1[2]), original_value=str(mm1[3]),
                                           validator=job["status"], validator_parts=bl),
                                 f"{e['name']}: synthesized loop gives {mm1[1]} = {mm1[2]} at n={mm1[0]}, the original loop gives {mm1[3]}\n"
